@@ -12,7 +12,7 @@ import itertools
 import json
 
 from . import core, schemeref as R
-from . import c01
+from . import c01, c07
 
 SWITCHES = {
     "jit": ({"STEEL_JIT": "false"}, {}),                       # (off, on)  -- on is the default
@@ -78,11 +78,13 @@ def main(tier):
     rng = core.rng("C02")
     progs, discarded = c01.gen_corpus(rng, n)
     hists = history_corpus(rng, 60 if tier == "quick" else 2000)
+    ill = c07.gen_compiled_programs(rng, 330 if tier == "quick" else 6000)   # ill-typed run-time operands in compiled functions
     cfgs = configs(tier)
     rep.coverage["rule"] = (
         "C01 corpus (reference-accepted, order-insensitive, terminating) x {top-level, module} and generated 3-unit "
         "histories (redefinition / set! of globals used by earlier compiled functions), each run in one OS process per "
-        "configuration of the five switches; every configuration is compared with the all-off baseline; distinct by "
+        "configuration of the five switches, plus functions applying each operator that has its own opcode / native helper to "
+        "ill-typed run-time operands (errors trapped by a compiled caller: which calls raise must not depend on the configuration); every configuration is compared with the all-off baseline; distinct by "
         "(program, mode); non-trivial = the program has an observable effect")
     rep.note("configurations", [cname(c) for c in cfgs])
     obs = {}
@@ -92,6 +94,11 @@ def main(tier):
             cases = []
             for i, p in enumerate(progs):
                 cs = {"id": "p%d" % i, "units": [p["src"]], "timeout_ms": 30000}
+                if mode == "module":
+                    cs["as_module"] = True
+                cases.append(cs)
+            for i, (desc, src) in enumerate(ill):
+                cs = {"id": "x%d" % i, "units": [src], "timeout_ms": 30000}
                 if mode == "module":
                     cs["as_module"] = True
                 cases.append(cs)
@@ -113,6 +120,8 @@ def main(tier):
             rep.nontrivial(p["src"])
     for h in hists:
         rep.nontrivial(tuple(h))
+    for desc, src in ill:
+        rep.nontrivial(src)
     # compare with the baseline; name the switch that explains each divergence
     div = {}
     for (c, mode, cid), (o, r) in obs.items():
@@ -124,7 +133,8 @@ def main(tier):
     classes = {}
     for (mode, cid), bycfg in sorted(div.items()):
         is_hist = cid.startswith("h")
-        src = hists[int(cid[1:])] if is_hist else [progs[int(cid[1:])]["src"]]
+        is_ill = cid.startswith("x")
+        src = hists[int(cid[1:])] if is_hist else ([ill[int(cid[1:])][1]] if is_ill else [progs[int(cid[1:])]["src"]])
         explained = []
         for sw in ("jit", "lift"):
             if frozenset({sw}) in bycfg:
@@ -146,7 +156,7 @@ def main(tier):
             kind = "process %s" % r["status"] if r["status"] != "ok" else c01.diff_kind(
                 b[idx[0]] if idx else ("?", [], ""), o[idx[0]] if idx else ("?", [], ""), u or {})
             attr = None
-            if not is_hist:
+            if not is_hist and not is_ill:
                 attr = c01.attribute(progs[int(cid[1:])]["forms"], kind, u, mode == "module")
                 # only findings that depend on the native code generator can differ between configurations
                 if attr and not attr.startswith(("F05", "F06", "F07", "F09")):
@@ -155,7 +165,11 @@ def main(tier):
                 # baseline (JIT off) raises, the JIT configuration goes on: the error is lost in native code
                 if b and any(x[0] == "err" for x in b) and all(x[0] == "ok" for x in o if isinstance(x, tuple)):
                     attr = c01.F12
+            if is_ill:
+                attr = None
             key = attr or "%s (%s, switch %s)" % (kind, "history" if is_hist else mode, sw)
+            if is_ill:
+                key = "ill-typed operand of %s in a compiled function: %s" % (ill[int(cid[1:])][0].split("/")[0], key)
             classes.setdefault(key, []).append((cname(c), mode, src, b, o))
     for key, items in sorted(classes.items()):
         cn, mode, src, b, o = min(items, key=lambda it: len("\n".join(it[2])))
